@@ -11,6 +11,7 @@ import (
 
 	webp "github.com/deepteams/webp"
 	"github.com/deepteams/webp/internal/zzverif/fw"
+	"github.com/deepteams/webp/internal/zzverif/imgs"
 )
 
 // C17 — decoding a truncated file is all-or-nothing (fault enumeration,
@@ -202,10 +203,50 @@ func c17CutWith(f namedFile, ref *fullRef, n int, kind string) string {
 	return ""
 }
 
+// c17TailFiles is the stream-ending family: small pictures x few-colour / flat / noise content
+// x alpha x codec settings x filler seeds, each a complete valid file.
+func c17TailFiles(seed int64, quick bool) []namedFile {
+	var out []namedFile
+	sizes := [][2]int{{1, 1}, {2, 1}, {1, 3}, {3, 2}, {4, 4}, {5, 3}, {6, 10}, {7, 7}, {8, 8}, {9, 5}, {13, 4}, {16, 16}, {17, 3}, {3, 17}}
+	seeds := 3
+	if !quick {
+		seeds = 12
+	}
+	for _, sz := range sizes {
+		for _, content := range []string{"flat", "c2", "c3", "c4", "c5", "c16", "noise"} {
+			for _, alpha := range []string{"opaque", "binary"} {
+				for sd := 0; sd < seeds; sd++ {
+					img := imgs.Make(sz[0], sz[1], content, alpha, seed+int64(sd)*7919)
+					for _, o := range []struct {
+						name string
+						opt  *webp.EncoderOptions
+					}{
+						{"ll-m4q75", &webp.EncoderOptions{Lossless: true, Method: 4, Quality: 75}},
+						{"ll-m0q0", &webp.EncoderOptions{Lossless: true, Method: 0, Quality: 0}},
+						{"ll-m6q100", &webp.EncoderOptions{Lossless: true, Method: 6, Quality: 100}},
+						{"lossy", lossyOpts(nil)},
+						{"lossy-p3", lossyOpts(func(o *webp.EncoderOptions) { o.Partitions = 3; o.Quality = 30 })},
+					} {
+						if (content == "flat" || alpha == "binary") && sd > 0 && o.opt.Lossless == false {
+							continue // lossy colour data of flat pictures does not vary with the filler
+						}
+						data, err, p := encode(img, o.opt)
+						if err != nil || p != "" {
+							continue
+						}
+						out = append(out, namedFile{Name: fmt.Sprintf("tail-%dx%d-%s-%s-%s-s%d", sz[0], sz[1], content, alpha, o.name, sd), Data: data})
+					}
+				}
+			}
+		}
+	}
+	return out
+}
+
 func init() {
 	fw.Register(&fw.Check{
 		ID: "C17", Level: "fault_enumeration", Shards: shards16,
-		Rule:   "corpus of valid still files (lossy 1/2/4/8 partitions, lossless per transform class, lossy+alpha raw/VP8L x filters, extended with metadata before/after, unknown chunks, odd payloads, testdata) x EVERY prefix length 0..len (the complete file included) x 5 kinds of io.Reader (known length, unknown length, one byte per Read, data together with io.EOF, image.Decode/DecodeConfig through the registered format); Decode = error or identical picture; DecodeConfig/GetFeatures = error or identical values; non-trivial = a (file, cut) pair with cut > 0",
+		Rule:   "corpus of valid still files (lossy 1/2/4/8 partitions, lossless per transform class, lossy+alpha raw/VP8L x filters, extended with metadata before/after, unknown chunks, odd payloads, testdata) x EVERY prefix length 0..len (the complete file included) x 5 kinds of io.Reader (known length, unknown length, one byte per Read, data together with io.EOF, image.Decode/DecodeConfig through the registered format); Decode = error or identical picture; DecodeConfig/GetFeatures = error or identical values; plus the stream-ending family: every small picture of 14 sizes x 7 content classes x 2 alpha classes x 5 codec settings x 3 (thorough 12) fillers cut at each of its last 16 bytes, same readers and oracle; non-trivial = a (file, cut) pair with cut > 0",
 		Assume: []string{"worker count pinned to 1, pools never reuse", "corpus files are produced by this package's encoder and by the harness's RIFF writer"},
 		Run: func(e *fw.Env, r *fw.Result) {
 			pin()
@@ -241,6 +282,41 @@ func init() {
 					}
 				}
 			}
+			// Stream endings: the last bytes of a stream are where a decoder's end-of-data test is
+			// decided, and whether a cut there is noticed depends on how the final symbols fall
+			// (literal / copy / cache hit, packed or ordinary prefix tables, bits left in the
+			// window). So many small files - every combination below - are cut at each of their
+			// last 16 bytes; only this family is large enough to vary the ending itself.
+			tails := c17TailFiles(e.Seed, e.Quick())
+			for _, f := range tails {
+				var ref *fullRef
+				for n := len(f.Data) - 1; n >= 1 && n >= len(f.Data)-16; n-- {
+					k++
+					if !e.Mine(k) {
+						continue
+					}
+					if e.Expired() {
+						r.Cap("deadline reached before all stream endings were tried")
+						return
+					}
+					if ref == nil {
+						var bad string
+						if ref, bad = c17Full(f); bad != "" {
+							r.HarnessError("%s", bad)
+							break
+						}
+					}
+					r.Eval(int64(len(c17Readers)))
+					r.Distinct(f.Name, n)
+					if d := c17Cut(f, ref, n); d != "" {
+						f, ref, n := f, ref, n
+						if r.Confirm(2, d, func() string { return c17Cut(f, ref, n) }) {
+							r.Violate(fmt.Sprintf("truncate %s at %d of %d", f.Name, n, len(f.Data)), fmt.Sprintf("%s [file %s cut at byte %d of %d]", d, f.Name, n, len(f.Data)), c17Replay{f.Name, n, e.Seed})
+						}
+					}
+				}
+			}
+			r.Count("stream_ending_files", int64(len(tails)))
 			if e.Shard == 0 {
 				r.Count("corpus_files", int64(len(files)))
 				r.Count("corpus_bytes", int64(total))
@@ -257,7 +333,7 @@ func init() {
 			var rp c17Replay
 			json.Unmarshal(raw, &rp)
 			corpusThorough = true
-			for _, f := range stillCorpus(rp.Seed, e.Repo) {
+			for _, f := range append(stillCorpus(rp.Seed, e.Repo), c17TailFiles(rp.Seed, false)...) {
 				if f.Name == rp.File {
 					ref, bad := c17Full(f)
 					if bad != "" {
